@@ -35,6 +35,7 @@ type Prog struct {
 	Unbound    int  // v1: 1-in-N chance that an operand is an unbound name (point key or nil)
 	Containers bool // lists, maps, index paths, slices, aliasing
 	Probes     bool // p(...) after every statement
+	AddKey     bool // add_key(o1|o2, expr) / add_key(var) snapshots into the point
 	Boom       bool // boom() may appear as a statement
 	ExitCalls  bool // exit() may appear as a statement
 	UseTargets []string
@@ -352,6 +353,9 @@ func (g *Prog) probe() *gt.T {
 				args = append(args, gt.Ident(n))
 			}
 		}
+		if g.AddKey {
+			args = append(args, gt.Ident("o1"), gt.Ident("o2"))
+		}
 	}
 	return gt.Call("p", args...)
 }
@@ -432,6 +436,12 @@ func (g *Prog) simple(d int) *gt.T {
 		}
 		return g.Expr(TyAny, d)
 	case 8:
+		if g.AddKey && r.Intn(2) == 0 {
+			if ds := g.defined(); len(ds) > 0 && r.Intn(3) == 0 {
+				return gt.Call("add_key", gt.Ident(g.pick(ds)))
+			}
+			return gt.Call("add_key", gt.Ident(g.pick([]string{"o1", "o2"})), g.Expr(TyAny, d))
+		}
 		if g.Boom && r.Intn(6) == 0 {
 			return gt.Call("boom")
 		}
